@@ -29,7 +29,7 @@ mutual
       simp only [supportedB, Bool.and_eq_true] at h
       obtain ⟨⟨hl, hr⟩, hok⟩ := h
       simp only [build, evalPy]
-      rw [binBuild_eval T hT env op _ _ hok, forest_eval_eq_python T hT env l hl,
+      rw [binBuild_eval T hT env op _ _ (build_vecWF T l) (build_vecWF T r) hok, forest_eval_eq_python T hT env l hl,
         forest_eval_eq_python T hT env r hr]
     | .un op e, h => by
       simp only [supportedB] at h
@@ -162,28 +162,89 @@ theorem rtruediv_one_not_identity : ¬ ∀ x : Rat, numBin .truediv 1 x = some x
   have := h 2
   norm_num [numBin] at this
 
-/-! ## where the legacy dispatch of `OperatorDistribution.sampleGiven` differs from Python -/
+/-! ## regressions of repaired defects: these expressions are inside the fragment and evaluate as in Python -/
 
-/-- tables of the code before the proposed fix: `getattr` / `NotImplemented` emulation -/
-def legacyTables : Tables :=
-  { simp := [], vecOps := [], pythonDispatch := false, vecHandlerAcceptsSeq := false }
+/-- the value is the Vector `(a, b, c)` (`Val` has no decidable equality: compare the coordinates) -/
+def isVecOf (o : Option Val) (a b c : Rat) : Bool :=
+  match o with
+  | some (.vec x y z) => x == a && y == b && z == c
+  | _ => false
 
-/-- `(1, 2) + X` with `X` sampled to `(3,)`: Scenic raises (AttributeError: 'tuple' object has no attribute '__radd__'),
-    plain Python gives `(1, 2, 3)`.  This is why `supportedB` excludes the case (finding operator-dispatch:tuple.__radd__). -/
-theorem reflected_concat_witness :
+/-- the shapes of code the model is a model of (`Tables.WF` demands them of the generated data) -/
+def repairedTables : Tables :=
+  { simp := [⟨.add, false, 0⟩], vecOps := [(.add, false, true), (.add, true, true), (.sub, false, true), (.sub, true, false)],
+    pythonDispatch := true, vecHandlerAcceptsSeq := true, vecOpsWrapOperands := true }
+
+example : repairedTables.WF = true := by decide
+
+/-- tables extracted from code that still emulates Python's operator dispatch with `getattr`, or whose
+    VectorDistribution handler reads `.coordinates`, or whose vector operators do not wrap their operands, are
+    rejected: the theorems are only about the repaired shapes -/
+theorem legacy_shapes_rejected :
+    ({ repairedTables with pythonDispatch := false } : Tables).WF = false ∧
+    ({ repairedTables with vecHandlerAcceptsSeq := false } : Tables).WF = false ∧
+    ({ repairedTables with vecOpsWrapOperands := false } : Tables).WF = false := by decide
+
+/-- `(1, 2) + X` with `X` sampled to `(3,)` (3236edde: `sampleGiven` raised AttributeError '__radd__'):
+    inside the fragment, value `(1, 2, 3)` -/
+theorem reflected_concat :
     let e := Expr.bin .add (.const (.seq false [.num 1, .num 2])) (.leaf 0 .other)
     let env : Env := fun _ => .seq false [.num 3]
-    evalNode legacyTables env (build legacyTables e) = none ∧
-      evalPy env e = some (.seq false [.num 1, .num 2, .num 3]) ∧
-      supportedB legacyTables env e = false := by
-  refine ⟨rfl, rfl, rfl⟩
-
-/-- with Python's own dispatch (the proposed fix) the same expression is inside the fragment -/
-theorem reflected_concat_fixed :
-    let T : Tables := { legacyTables with pythonDispatch := true }
-    let e := Expr.bin .add (.const (.seq false [.num 1, .num 2])) (.leaf 0 .other)
-    let env : Env := fun _ => .seq false [.num 3]
-    supportedB T env e = true ∧ evalNode T env (build T e) = some (.seq false [.num 1, .num 2, .num 3]) := by
+    supportedB repairedTables env e = true ∧
+      evalNode repairedTables env (build repairedTables e) = some (.seq false [.num 1, .num 2, .num 3]) := by
   refine ⟨rfl, rfl⟩
+
+/-- `X - Vector(1, 1, 1)` with `X` sampled to the tuple `(3, 2, 1)` (3236edde: 'tuple' has no `__sub__`) -/
+theorem tuple_minus_vector :
+    let e := Expr.bin .sub (.leaf 0 .other) (.const (.vec 1 1 1))
+    let env : Env := fun _ => .seq false [.num 3, .num 2, .num 1]
+    supportedB repairedTables env e = true ∧
+      isVecOf (evalNode repairedTables env (build repairedTables e)) 2 1 0 = true := by
+  refine ⟨rfl, by decide +kernel⟩
+
+/-- `(Vector(x, 2, 3) + Vector(1, 1, 1)) + (1, 0, 0)` (2964538d: the handler read `.coordinates` of the tuple) and
+    `... + (0, 0, 0)` (the zero-identity shortcut now applies to sequences too) -/
+theorem vecdist_plus_tuple :
+    let vd := Expr.bin .add (.mkvec (.leaf 0 .number) (.const (.num 2)) (.const (.num 3))) (.const (.vec 1 1 1))
+    let env : Env := fun _ => .num 5
+    supportedB repairedTables env (.bin .add vd (.const (.seq false [.num 1, .num 0, .num 0]))) = true ∧
+      isVecOf (evalNode repairedTables env
+        (build repairedTables (.bin .add vd (.const (.seq false [.num 1, .num 0, .num 0]))))) 7 3 4 = true ∧
+      build repairedTables (.bin .add vd (.const (.seq false [.num 0, .num 0, .num 0]))) = build repairedTables vd := by
+  refine ⟨rfl, by decide +kernel, rfl⟩
+
+/-- `Vector(x, 2, 3) + (1, x, 3)` (e4f79cbd: the raw tuple was never sampled): the operand is wrapped into a
+    TupleDistribution and the value is Python's -/
+theorem vector_plus_raw_tuple :
+    let e := Expr.bin .add (.mkvec (.leaf 0 .number) (.const (.num 2)) (.const (.num 3)))
+      (.mkseq false [.const (.num 1), .leaf 0 .number, .const (.num 3)])
+    let env : Env := fun _ => .num 5
+    supportedB repairedTables env e = true ∧
+      (match build repairedTables e with | .vop _ _ _ (.tupd ..) => true | _ => false) = true ∧
+      isVecOf (evalNode repairedTables env (build repairedTables e)) 6 7 6 = true := by
+  refine ⟨rfl, rfl, by decide +kernel⟩
+
+/-- arithmetic on raw tuples is inside the fragment: `((x, 1) + (2,)) * 2` -/
+theorem raw_tuple_arithmetic :
+    let e := Expr.bin .mul (.bin .add (.mkseq false [.leaf 0 .number, .const (.num 1)]) (.const (.seq false [.num 2])))
+      (.const (.num 2))
+    let env : Env := fun _ => .num 5
+    supportedB repairedTables env e = true ∧
+      (match evalPy env e with
+       | some (.seq false [.num a, .num b, .num c, .num d, .num e, .num f]) =>
+         a == 5 && b == 1 && c == 2 && d == 5 && e == 1 && f == 2
+       | _ => false) = true := by
+  refine ⟨by decide +kernel, by decide +kernel⟩
+
+/-- what remains outside the fragment because Scenic and plain Python really differ: `Vector(1, 2, 3) + X` with `X`
+    sampled to `()` — plain Python returns the vector (zero-identity shortcut of the decorated `__add__`), the
+    VectorMethodDistribution calls the undecorated method, which raises IndexError
+    (finding vector-zero-identity-short-sequence) -/
+theorem short_zero_sequence_witness :
+    let e := Expr.bin .add (.const (.vec 1 2 3)) (.leaf 0 .other)
+    let env : Env := fun _ => .seq false []
+    evalNode repairedTables env (build repairedTables e) = none ∧ isVecOf (evalPy env e) 1 2 3 = true ∧
+      supportedB repairedTables env e = false := by
+  refine ⟨rfl, by decide +kernel, rfl⟩
 
 end Scenic.Expr
